@@ -98,6 +98,13 @@ def run(tier, seed):
     if not wit2.replays:
         raise vlib.ToolError("RootCli.tla with CrossAppends = TRUE yields no witness sequence")
     cases += wit2.replays[:: max(1, len(wit2.replays) // (25 if tier == "quick" else 200))]
+    # ... and sequences on which a `sign` that judged the threshold on the merged entries but wrote only the
+    # entries made in this invocation would leave a file below its threshold (sign k1 k2, then sign k1)
+    w3cfg = make_cfg("MC_RootCli.cfg", {"MaxCmds": 5, "WriteOnlyNew": "TRUE"}, os.path.join(w, "witness3.cfg"), invariants=["EmitBad"])
+    wit3 = tlc("RootCli", w3cfg, "c20-witness3", workers=8, timeout=900)
+    if not wit3.replays:
+        raise vlib.ToolError("RootCli.tla with WriteOnlyNew = TRUE yields no witness sequence")
+    cases += wit3.replays[:: max(1, len(wit3.replays) // (25 if tier == "quick" else 200))]
     if tier == "thorough":
         g3 = model(w, 3, ["Emit"], "gen3", view=False)
         cases += g3.replays[seed % 100::100]
@@ -113,7 +120,7 @@ def run(tier, seed):
                for r in rows[len(rows) // 2: len(rows) // 2 + 2]]
     cov = {"states": mc.distinct, "transitions": mc.generated, "traces_validated_against_impl": stats["evaluations"],
            "samples": samples, "evaluations": stats["evaluations"], "distinct_nontrivial": len(stats["nontrivial"]),
-           "rule": "sequences = behaviours of RootCli.tla over 3 keys (RSA, Ed25519, ECDSA): all sequences of 2 commands (thorough: a hundredth of all of 3) and simulated sequences of 6 (thorough: 12) commands among add-key (root / timestamp / all roles), remove-key (from root / everywhere), set-threshold, bump-version, set-version 2^32, expire, sign with every non-empty key set x --cross-sign (another root with root keys 1 and 2, signed by key 2) x --ignore-threshold; plus witness sequences that TLC finds on two variants of the model (threshold compared with the number of signature entries; cross-signing appending the other root's entries); each run through the tuftool binary built from the working tree; after every invocation the file is parsed by the harness, key ids recomputed and signatures verified independently; non-trivial = the sequence contains a sign",
+           "rule": "sequences = behaviours of RootCli.tla over 3 keys (RSA, Ed25519, ECDSA): all sequences of 2 commands (thorough: a hundredth of all of 3) and simulated sequences of 6 (thorough: 12) commands among add-key (root / timestamp / all roles), remove-key (from root / everywhere), set-threshold, bump-version, set-version 2^32, expire, sign with every non-empty key set x --cross-sign (another root with root keys 1 and 2, signed by key 2) x --ignore-threshold; plus witness sequences that TLC finds on three variants of the model (threshold compared with the number of signature entries; cross-signing appending the other root's entries; threshold judged on the merged entries while only this invocation's are written); each run through the tuftool binary built from the working tree; after every invocation the file is parsed by the harness, key ids recomputed and signatures verified independently; non-trivial = the sequence contains a sign",
            "exhaustive": False}
     return v.finish("model_checking", cov, ["TLC checks the command semantics (all sequences up to 6-7 commands with the history hidden); replayed sequences are a sample beyond length 2; the file is judged by the harness's own parser, canonical JSON, digest and signature verification"])
 
